@@ -101,6 +101,40 @@ static void run_balance(Ctx& ctx, uint64_t m) {
   }
 }
 
+// buffers that live inside a transform table (new_*_precomp(m, num_buffers) + *_precomp_get_buffer): each one must be a
+// usable, 2m-double region inside the table's allocation, disjoint from the twiddles and from the other buffers
+static void run_precomp_buffers(Ctx& ctx, uint64_t m) {
+  for (int which = 0; which < 4; ++which) for (uint32_t nb : {1u, 2u, 3u}) {
+    static const char* nm[] = {"reim_fft", "reim_ifft", "cplx_fft", "cplx_ifft"};
+    std::string id = sfmt("precomp-buffers|new_%s_precomp|m=%llu|num_buffers=%u", nm[which], (unsigned long long)m, nb);
+    if (!ctx.want(id)) continue;
+    ctx.begin_case(id);
+    void* pc = which == 0 ? (void*)new_reim_fft_precomp(m, nb) : which == 1 ? (void*)new_reim_ifft_precomp(m, nb) : which == 2 ? (void*)new_cplx_fft_precomp(m, nb) : (void*)new_cplx_ifft_precomp(m, nb);
+    auto buf = [&](uint32_t i) -> double* {
+      switch (which) { case 0: return reim_fft_precomp_get_buffer((REIM_FFT_PRECOMP*)pc, i); case 1: return reim_ifft_precomp_get_buffer((REIM_IFFT_PRECOMP*)pc, i);
+                       case 2: return (double*)cplx_fft_precomp_get_buffer((CPLX_FFT_PRECOMP*)pc, i); default: return (double*)cplx_ifft_precomp_get_buffer((CPLX_IFFT_PRECOMP*)pc, i); } };
+    auto run = [&](double* d) { switch (which) { case 0: reim_fft((REIM_FFT_PRECOMP*)pc, d); break; case 1: reim_ifft((REIM_IFFT_PRECOMP*)pc, d); break; case 2: cplx_fft((CPLX_FFT_PRECOMP*)pc, d); break; default: cplx_ifft((CPLX_IFFT_PRECOMP*)pc, d); } };
+    // reference result on an ordinary buffer
+    GBuf ref(16 * m, 8);
+    for (uint64_t i = 0; i < 2 * m; ++i) ref.as<double>()[i] = kdouble(i + 3);
+    std::vector<double> in(ref.as<double>(), ref.as<double>() + 2 * m);
+    run(ref.as<double>());
+    std::string err;
+    // fill every buffer completely (ASan: an overrun of the table's allocation aborts), then transform inside each of them
+    for (uint32_t i = 0; i < nb; ++i) { double* b = buf(i); if (((uintptr_t)b) % 32) err = sfmt("buffer %u is not 32-byte aligned", i); for (uint64_t k = 0; k < 2 * m; ++k) b[k] = in[k]; }
+    for (uint32_t i = 0; i < nb && err.empty(); ++i) {
+      run(buf(i));
+      if (memcmp(buf(i), ref.p, 16 * m)) err = sfmt("transform inside buffer %u differs from the transform in an ordinary buffer (the buffer overlaps the twiddle table?)", i);
+      for (uint32_t j = i + 1; j < nb && err.empty(); ++j) if (memcmp(buf(j), in.data(), 16 * m)) err = sfmt("using buffer %u changed buffer %u (they overlap)", i, j);
+    }
+    // the table still works after its buffers were overwritten
+    if (err.empty()) { GBuf again(16 * m, 8); memcpy(again.p, in.data(), 16 * m); run(again.as<double>()); if (memcmp(again.p, ref.p, 16 * m)) err = "writing the buffers damaged the twiddle table"; }
+    if (!err.empty()) ctx.violation(id, err);
+    free(pc);
+    ctx.end_case(true);
+  }
+}
+
 int main(int argc, char** argv) {
   Args args = parse_args("C11", argc, argv, 420, 1800);
   Ctx ctx(args);
@@ -121,6 +155,7 @@ int main(int argc, char** argv) {
   std::vector<uint64_t> ms;
   for (uint64_t m = 1; m <= 65536; m *= 2) ms.push_back(m);
   ctx.parallel(ms.size(), [&](uint64_t i) { run_balance(ctx, ms[ms.size() - 1 - i]); }, "constructor balance");
+  ctx.parallel(ms.size(), [&](uint64_t i) { run_precomp_buffers(ctx, ms[ms.size() - 1 - i]); }, "buffers inside transform tables");
   ctx.assumptions = {"library and harness built with -fsanitize=address; every buffer is a heap block of exactly the declared extent (right red zone at its end, poisoned slack on its left)",
                      "declared extents are those of DESIGN.md appendix A; NTT120 vectors are 32*N (DFT) / 16*N (big) bytes per limb as in the repository's tests",
                      "NOT_IMPLEMENTED() stubs (reim_from_znx32*, reim_from_tnx32*, reim_to_tnx32*) abort by design and are excluded",
